@@ -9,7 +9,9 @@ from checks import common as c
 from checks import topogen as tg
 
 SPACE = dict({'graph': list(tg.GRAPHS), 'chain': tg.CHAINS, 'chain_rev': ['F80', 'F200', 'F40_U_F30', 'E_F80', 'F10'],
-              'eq': ['test', 'example', 'multiband'], 'bands': ['C', 'CL', 'CL_first', 'CL_rest']}, **tg.SPAN_SPACE)
+              'eq': ['test', 'example', 'multiband'], 'bands': ['C', 'CL', 'CL_first', 'CL_rest'],
+              # library object used before: another network (a line with a fibre that is split) was designed with it first
+              'used_library': [0, 1]}, **tg.SPAN_SPACE)
 
 
 def original_fibres(topo):
@@ -41,7 +43,8 @@ def run_case(case):
         net0 = c.load_network(topo, equipment)
         before_reach = reach(net0)
         try:
-            net, equipment, _, _ = c.design(topo, eq, sim=sim)
+            warm = tg.topology(dict(case, graph='P2', chain='F200', chain_rev='F80')) if case.get('used_library') else None
+            net, equipment, _, _ = c.design(topo, eq, sim=sim, warm=warm)
         except Exception as exc:  # noqa
             if type(exc) is ConfigurationError and 'auto_design' in str(exc).lower():
                 # documented rejection: no amplifier in the library can satisfy the requirement
@@ -61,7 +64,7 @@ def run_case(case):
         c.set_sim_params({})
     span = equipment['Span']['default']
     power_mode = span.power_mode
-    tags = {}
+    tags = {'library-used-before': 1} if case.get('used_library') else {}
     uids = [n.uid for n in net.nodes()]
     if len(set(uids)) != len(uids):
         v('duplicate-uid', f'duplicate element names after design: {sorted(u for u in set(uids) if uids.count(u) > 1)[:4]}')
